@@ -40,10 +40,10 @@ CHECKS = {
   text="All four end variants, one-shot of key / output chord / layer-while-held, timeouts {5,30}, rapid-event-delay {0,5}: every toggle schedule of <= N events (4-5) over one or two one-shot keys and two plain keys that differ on the one-shot layer is compared, with full timestamped equality, against the reference model (next-key-only effect, expiry at exactly T, stacking and restart, held one-shot = plain key, pcancel, overflow of the 16-entry table).",
   note="Trusts the reference model (Appendix A.3). One end-variant per configuration. Cases reaching kanata's 12-active-layer capacity or >= 32 pending events are discarded."),
  "C07": dict(
-  cat="exploration", ref="DESIGN.md §4 C07 (a)",
-  technique="differential (paired) execution on generated configurations and histories: the processing loop's control flow is emulated on a virtual clock around the real can-block decision, once blocking and once ticking every millisecond; oracle = identical observable output with identical virtual timestamps; proptest + ddmin shrinking",
+  cat="exploration", ref="DESIGN.md §4 C07",
+  technique="differential (paired) execution on generated configurations and histories: the processing loop's control flow is emulated on a virtual clock around the real can-block decision, once blocking and once ticking every millisecond; oracle = identical observable output with identical virtual timestamps; proptest + ddmin shrinking; plus, for one case in 300, the real processing thread in real time against the deterministic stepper on time-insensitive configurations",
   text="Relates two executions of the real state machine for every generated (config, history): whenever can_block_update_idle_waiting says the loop may sleep, the blocking run jumps to the next input event without ticking while the reference run keeps ticking; all OS-observable output (key/button state transitions, unicode, mouse, scroll, raw codes) must agree event for event and millisecond for millisecond, including what a further tick would still emit after the last event.",
-  note="Virtual clock: the nanosecond remainder carry of handle_time_ticks and real thread scheduling are not exercised (DESIGN.md §8). Two events in the same millisecond are excluded by construction (inherent +-1 tick jitter of the real loop). Four is_idle defects found by this check were repaired with fix: commits."),
+  note="Virtual clock for the paired runs; the real-thread cases (500 per quick run) cover event delivery, blocking and wake-up of the real loop for time-insensitive configurations only; the nanosecond remainder carry of handle_time_ticks is not decided (DESIGN.md §8). Two events in the same millisecond are excluded by construction (inherent +-1 tick jitter of the real loop). Four is_idle defects found by this check were repaired with fix: commits."),
 
  "C08": dict(
   cat="exploration", ref="DESIGN.md §4 C08, Appendix A.5",
